@@ -129,18 +129,33 @@ impl LyNative for MapStr {
       return Call::Ok(val!(hooks.manage_str("{}")));
     }
 
-    // buffer for temporary strings
-    let mut strings: Vec<String> = Vec::with_capacity(map.len());
-
+    // the str methods of keys and values may change the map, which
+    // moves its table. The entries are copied first and kept alive
+    let mut entries: Vec<Value> = Vec::with_capacity(map.len() * 2);
     for (key, value) in map.iter() {
+      entries.push(*key);
+      entries.push(*value);
+    }
+
+    let entries = hooks.manage_obj(list!(&*entries));
+    hooks.push_root(entries);
+
+    // buffer for temporary strings
+    let mut strings: Vec<String> = Vec::with_capacity(entries.len() / 2);
+
+    let mut index = 0;
+    while index + 1 < entries.len() {
       let mut kvp_string = String::new();
 
-      format_map_entry(*key, self.method_name, self.error, &mut kvp_string, hooks)?;
+      format_map_entry(entries[index], self.method_name, self.error, &mut kvp_string, hooks)?;
       kvp_string.push_str(": ");
-      format_map_entry(*value, self.method_name, self.error, &mut kvp_string, hooks)?;
+      format_map_entry(entries[index + 1], self.method_name, self.error, &mut kvp_string, hooks)?;
 
-      strings.push(kvp_string)
+      strings.push(kvp_string);
+      index += 2;
     }
+
+    hooks.pop_roots(1);
 
     // format and join strings
     let formatted = format!("{{ {} }}", strings.join(", "));
